@@ -12,16 +12,16 @@ from hv.ref import raw
 ID = "C17"
 RULE = ("pairs of G-sim trace directories (identical / perturbed: events removed, durations changed, ops renamed / different "
         "vocabularies), 1-3 ranks each, EVERY kind of rank selection (None, single int, full list, proper subsets of size >= 2), "
-        "iteration None / single / lists, device filter ALL / CPU / GPU, long and short names; compare_traces and ops_diff vs. "
+        "iteration None / single / lists, device filter ALL / CPU / GPU, long and short names, distinct / identical / default labels, ops_diff before or after compare_traces on fresh objects; compare_traces and ops_diff vs. "
         "per-name counts and durations recomputed from the raw files with the reference iteration assignment (parse-only, no "
         "trimming); plus the self-comparison law. Non-trivial: >= 3 of the 5 change classes non-empty, or a proper rank subset of "
         "size >= 2. Distinct = hash of both file sets + selection.")
 ASSUMPTIONS = ["well-formed regime (hv/wf.py); iteration reference hv/ref/load.py (C12)", "short names use the repository's shorten_name (trusted helper)",
                "iterations / ranks passed are valid for the traces (the API raises ValueError otherwise)"]
 PLAN = {"quick": {"shards": 16, "cases": 320, "timeout": 900}, "thorough": {"shards": 16, "cases": 5000, "timeout": 3400}}
-FLOORS = {"quick": {"distinct_nontrivial": 60, "names_judged": 3000, "proper_rank_subsets": 25, "self_comparisons": 25, "short_name_calls": 60,
+FLOORS = {"quick": {"distinct_nontrivial": 60, "names_judged": 3000, "proper_rank_subsets": 25, "self_comparisons": 25, "short_name_calls": 60, "identical_labels": 60, "ops_diff_called_first": 80,
                     "class_added": 200, "class_deleted": 200, "class_increased": 100, "class_decreased": 100, "class_unchanged": 500},
-          "thorough": {"distinct_nontrivial": 1200, "names_judged": 100000, "proper_rank_subsets": 500, "self_comparisons": 800, "short_name_calls": 1200,
+          "thorough": {"distinct_nontrivial": 1200, "names_judged": 100000, "proper_rank_subsets": 500, "self_comparisons": 800, "short_name_calls": 1200, "identical_labels": 1000, "ops_diff_called_first": 1400,
                        "class_added": 4000, "class_deleted": 4000, "class_increased": 2000, "class_decreased": 2000, "class_unchanged": 10000}}
 
 
@@ -81,7 +81,9 @@ def gen_case(rnd, tier: str, i: Any) -> Dict[str, Any]:
         return sorted(rnd.sample(steps, rnd.randint(1, len(steps))))
 
     self_cmp = rnd.random() < 0.2
-    return {"control": control, "test": control if self_cmp else test, "self": self_cmp, "mode": mode,
+    labels = rnd.choice([["Control", "Test"], ["Control", "Test"], ["baseline", "candidate"], ["run", "run"], [None, None]])
+    return {"control": control, "test": control if self_cmp else test, "self": self_cmp, "mode": mode, "labels": labels,
+            "classes_first": rnd.random() < 0.5,
             "sel": {"control_rank": sel_ranks(), "test_rank": sel_ranks(), "control_iteration": sel_iter(), "test_iteration": sel_iter(),
                     "device": rnd.choice(["ALL", "CPU", "GPU"]), "short": rnd.random() < 0.3}}
 
@@ -129,13 +131,21 @@ def run_case(case: Dict[str, Any], ctx: Any) -> core.CaseResult:
 
         core.write_trace_files(dc, case["control"])
         core.write_trace_files(dt, case["test"])
-        ok, lc = drv.guard(res, "LabeledTrace(control)", LabeledTrace, "Control", None, dc)
-        ok2, lt = drv.guard(res, "LabeledTrace(test)", LabeledTrace, "Test", None, dt)
+        lab = case.get("labels", ["Control", "Test"])
+        ok, lc = drv.guard(res, "LabeledTrace(control)", LabeledTrace, lab[0], None, dc)
+        ok2, lt = drv.guard(res, "LabeledTrace(test)", LabeledTrace, lab[1], None, dt)
         if not (ok and ok2):
             return res
+        if lc.label == lt.label:
+            res.counters["identical_labels"] += 1
         dev = getattr(DeviceType, sel["device"])
         kw = dict(control_rank=sel["control_rank"], test_rank=sel["test_rank"], control_iteration=sel["control_iteration"],
                   test_iteration=sel["test_iteration"], device_type=dev)
+        od_first = None
+        if case.get("classes_first") and not sel["short"]:
+            # the documented entry points may be used in any order: classes before the table, on a fresh pair of objects
+            okf, od_first = drv.guard(res, "ops_diff (first call)", TraceDiff.ops_diff, lc, lt, **kw)
+            res.counters["ops_diff_called_first"] += 1
         ok, comp = drv.guard(res, "compare_traces", TraceDiff.compare_traces, lc, lt, use_short_name=sel["short"], **kw)
         if not ok:
             res.violations[-1].witness.update(sel=str(sel))
@@ -158,7 +168,8 @@ def run_case(case: Dict[str, Any], ctx: Any) -> core.CaseResult:
         for nm in names & got_names:
             res.counters["names_judged"] += 1
             row = comp.loc[nm]
-            got = (row["Control_counts"], row["Test_counts"], row["Control_total_duration"], row["Test_total_duration"], row["diff_counts"], row["diff_duration"])
+            got = (row[f"{lc.label}_counts"], row[f"{lt.label}_counts"], row[f"{lc.label}_total_duration"], row[f"{lt.label}_total_duration"],
+                   row["diff_counts"], row["diff_duration"])
             exp = (cc[nm], tc[nm], cd[nm], td[nm], tc[nm] - cc[nm], td[nm] - cd[nm])
             if tuple(float(x) for x in got) != tuple(float(x) for x in exp):
                 nb += 1
@@ -167,6 +178,9 @@ def run_case(case: Dict[str, Any], ctx: Any) -> core.CaseResult:
                             f"expected {exp} (selection {sel})")
         # ---- classes
         ok, od = drv.guard(res, "ops_diff", TraceDiff.ops_diff, lc, lt, **kw)
+        if ok and od_first is not None and {k: sorted(v) for k, v in od_first.items()} != {k: sorted(v) for k, v in od.items()}:
+            res.bad("classes-stable", f"ops_diff called first on fresh objects gave {core.short({k: sorted(v) for k, v in od_first.items()}, 300)}, "
+                    f"a later call gives {core.short({k: sorted(v) for k, v in od.items()}, 300)} (labels {lab})")
         if ok and not sel["short"]:
             cc0, _ = (cc, cd)
             classes = {k: list(v) for k, v in od.items()}
